@@ -11,7 +11,7 @@ import re
 
 from sa.core.common import AnalysisError, Collector, REPO
 from sa.core.paths import enclosing, enumerate_paths, guards, parent_map
-from sa.core.pyfacts import Repo, arg, call_name, const_str, kwarg, src, walk_no_nested
+from sa.core.pyfacts import Repo, arg, call_name, const_str, kwarg, src, walk_no_nested, ordk, ordk_end
 
 EXPLANATION = (
     "Static path/shape analysis of LocalDataset.__init__ and execute_result_async and of the three dataset subclasses: "
@@ -265,7 +265,7 @@ def check(col: Collector, tier: str):
                 "(an ancestor/prefix test lets a sub-directory file through, which is then absent under /data)", ex.loc)
         # the raise dominates docker.run: the loop statement precedes the docker.run statement in the with body
         run_calls = [c for c in ast.walk(ex.node) if isinstance(c, ast.Call) and src(c.func) == "docker.run"]
-        dom = len(run_calls) == 1 and lp.end_lineno < run_calls[0].lineno and all(
+        dom = len(run_calls) == 1 and ordk_end(lp) < ordk(run_calls[0]) and all(
             any(e.node is lp and e.kind in ("iter", "cond") for e in p.events[:idx(p, lambda e: e.kind == "call" and src(e.node.func) == "docker.run")])
             for p in normal)
         col.add("C17.R2", ex.short, "validation-before-container-start", dom,
@@ -360,7 +360,7 @@ def check_run_shape(col: Collector, repo: Repo, ex, run_dir_var):
             if len(mdval) == 1 and isinstance(mdval[0], ast.Call) and call_name(mdval[0]) == "extended_md" and guarded:
                 over.append(d)
     col.add("C17.R3", ex.short, "image-default-and-metadata-override", ok and len(base) == 1 and len(over) == 1 and len(defs) == 2
-            and base[0].lineno < over[0].lineno,
+            and ordk(base[0]) < ordk(over[0]),
             "the image passed to docker.run must be self._docker_image, overridden by the LAST docker metadata (md[-1].image) only when some is present "
             f"(definitions: {[src(d) for d, _ in defs]})", loc)
     cmd = arg(r, 1, "command")
@@ -493,7 +493,7 @@ def check_failure(col: Collector, repo: Repo, ex, run_dir_var):
     ext = None
     if rok:
         calls = [c for c in ast.walk(rets[0]) if isinstance(c, ast.Call) and call_name(c) == "_extract_result_TTree"]
-        rok = len(calls) == 1 and tries and rets[0].lineno > max(t.end_lineno for t in tries)
+        rok = len(calls) == 1 and tries and ordk(rets[0]) > max(ordk_end(t) for t in tries)
         ext = calls[0] if calls else None
     col.add("C17.R4", ex.short, "single-return-after-the-run", rok,
             "the only return must come after the try around docker.run and read the result through _extract_result_TTree", ex.loc)
